@@ -1453,3 +1453,280 @@ def plan_c14(tier, seed):
 
 
 PLANS.update({"C14": plan_c14})
+
+
+# ------------------------------------------------------------------------------------------------
+# C10: bitenum validation, accepted => sound
+def c10_candidates(tier, seed):
+    """[(EnumDef, role)]; rule validity comes from EnumDef.rule_valid()"""
+    C = []
+
+    def add(bits, discrs, exhaustive, role, tag, cfg=None, legacy=False):
+        vs = [(f"V{i}", d, (cfg[i] if cfg else None)) for i, d in enumerate(discrs)]
+        e = EnumDef("E", bits, vs, exhaustive, legacy)
+        e.tag = tag
+        C.append((e, role))
+
+    sizes = [1, 2, 3, 4, 8] + ([5, 7] if tier != "quick" else [])
+    for N in sizes:
+        n = 1 << N
+        full = list(range(n))
+        for ex in ("true", "false", None, "conditional"):
+            add(N, full, ex, "all-values-present", f"u{N}: all {n} values, exhaustive={ex}")
+            add(N, full[:-1], ex, "one-value-missing", f"u{N}: top value missing, exhaustive={ex}")
+            add(N, full[1:], ex, "one-value-missing", f"u{N}: zero missing, exhaustive={ex}")
+            add(N, [n - 1], ex, "single-variant", f"u{N}: single variant at max, exhaustive={ex}")
+            # max discriminant == 2^N (one too large), with and without the full set
+            add(N, [0, n], ex, "discriminant-too-large", f"u{N}: discriminant {n} == 2^N, exhaustive={ex}")
+            add(N, full[:-1] + [n], ex, "discriminant-too-large", f"u{N}: 2^N variants but one is {n}, exhaustive={ex}")
+            if N <= 4:
+                add(N, full + [n], ex, "too-many-variants", f"u{N}: 2^N+1 variants, exhaustive={ex}")
+        # cfg-gated variants without `conditional`
+        if N >= 2:
+            add(N, full, "true", "cfg-without-conditional", f"u{N}: full set, one variant cfg'd OFF, exhaustive=true", cfg=[None] * (n - 1) + ["off"])
+            add(N, full, "true", "cfg-without-conditional", f"u{N}: full set, one variant cfg'd ON, exhaustive=true", cfg=[None] * (n - 1) + ["on"])
+            add(N, full[:-1], None, "cfg-without-conditional", f"u{N}: cfg'd variant, exhaustive omitted", cfg=["on"] + [None] * (n - 2))
+            add(N, full, "conditional", "conditional", f"u{N}: conditional with one variant OFF", cfg=[None] * (n - 1) + ["off"])
+    # storage-class boundaries up to 64
+    for N in (9, 16, 17, 32, 33, 63, 64):
+        top = (1 << N) - 1
+        add(N, [0, top], None, "sparse-wide", f"u{N}: {{0, max}}")
+        add(N, [0, top], "true", "exhaustive-claim-on-sparse-wide", f"u{N}: {{0, max}} claimed exhaustive")
+        if N < 64:
+            add(N, [0, top + 1], None, "discriminant-too-large", f"u{N}: discriminant 2^{N}")
+            add(N, [top + 1], "false", "discriminant-too-large", f"u{N}: only discriminant 2^{N}")
+    # unsupported storage sizes
+    add(65, [0, 1], None, "bad-storage-size", "u65 storage")
+    add(0, [0], None, "bad-storage-size", "u0 storage")
+    add(128, [0, 1], None, "bad-storage-size", "u128 storage")
+    return C
+
+
+def h_c10(E: EnumDef, role):
+    hs = []
+    a = h_enum_from_raw(E)
+    a.prop, a.role, a.family = "C10", role, "enum_total_and_exact"
+    hs.append(a)
+    if E.active:
+        t = h_enum_to_raw(E)
+        t.prop, t.role, t.family = "C10", role, "enum_variants_representable"
+        hs.append(t)
+    if E.exhaustive in (None, "false"):
+        N = E.bits
+        b = [f"let x: u{N} = {H.uint_sym(N)};", f"let res = {E.name}::new_with_raw_value(x);",
+             'vcover!(res.is_err(), "VERIF-REACH-err");', "vend!();"]
+        hs.append(Harness("err_reachable", "\n".join(b), "reach", "enum_nonexhaustive_err_reachable", "C10", "", (f"{E.name}::new_with_raw_value",), reach=("VERIF-REACH-err",), role=role))
+    return hs
+
+
+def plan_c10(tier, seed):
+    us = []
+    for i, (e, role) in enumerate(c10_candidates(tier, seed)):
+        valid = e.rule_valid()
+        hs = h_c10(e, role) if 1 <= e.bits <= 64 else []
+        us.append(Unit(f"e{i:05d}", e.decl(), hs, {"enum": e, "sig": e.sig(), "tag": e.tag, "valid": valid, "role": role}))
+    ec = full_enum("E", 2)
+    h = h_enum_from_raw(ec)
+    h.name, h.expect, h.family = "ctl_from_raw", "control", "control"
+    h.body = h.body.replace("let x128: u128 = ", "let x128: u128 = 1u128 ^ ", 1)
+    en = sparse_enum("E", 3, list(range(8)), None)  # would be all values but is never accepted; use a valid sparse one
+    en = sparse_enum("E", 3, [0, 1, 2], None)
+    h2 = Harness("ctl_err", f"let x: u3 = {H.uint_sym(3)};\nvassume(x.value() < 3);\nlet res = E::new_with_raw_value(x);\nassert!(res.is_err(), \"VERIF control\");\nvend!();", "control", "control", "C10")
+    us.append(Unit("k00000", ec.decl(), [h, h_enum_from_raw(ec)], {"enum": ec, "sig": ec.sig(), "tag": "control enum", "valid": True}))
+    us.append(Unit("k00001", en.decl(), [h2], {"enum": en, "sig": en.sig(), "tag": "control enum 2", "valid": True}))
+    nvalid = sum(1 for u in us if u.meta["valid"])
+    return Plan(us, title="bitenum validation", macro_profiles=("dev", "release"), accept_is_obligation=True, chunk=300,
+                bounds={"candidates": "%d enum declarations (%d rule-valid, must compile; %d rule-invalid, must be rejected or else satisfy the soundness spec): N in {1,2,3,4,8} (+5,7 thorough) x {all values, one missing, single variant, discriminant == 2^N, 2^N+1 variants} x exhaustive in {true,false,omitted,conditional}; cfg-gated variants with/without conditional; storage-class boundaries 9..64; unsupported storage sizes" % (len(us), nvalid, len(us) - nvalid),
+                        "decided per accepted enum, for ALL raw values": "declared exhaustive => conversion returns a variant and the unreachable!() arm cannot be reached; declared non-exhaustive => Err is reachable; every variant's raw_value() does not panic and equals its discriminant",
+                        "outside": "cfg-gated variants accepted without `conditional` when all of them are active (the accepted enum is sound); non-literal discriminants"},
+                assumptions=COMMON_ASSUME + ["rule oracle written from the property text (model.EnumDef.rule_valid)"])
+
+
+PLANS.update({"C10": plan_c10})
+
+
+# ------------------------------------------------------------------------------------------------
+# C19: debug option
+DBG_STUBS = (("core::fmt::Formatter::debug_struct", "crate::rt::dbgrec::stub_debug_struct"),
+             ("core::fmt::DebugStruct::field", "crate::rt::dbgrec::stub_field"),
+             ("core::fmt::DebugStruct::finish", "crate::rt::dbgrec::stub_finish"))
+
+
+def ref_value_expr(ft, bits):
+    """expression of the getter type built from reference bits (u128 expr), independent of the macro
+    where possible"""
+    k = ft.kind
+    if k == "bool":
+        return f"(({bits}) == 1)"
+    if k == "uint":
+        return H.uint_from_u128(ft.width, bits)
+    if k == "int":
+        return f"(spec::sext({bits}, {ft.width}) as i{ft.width})"
+    if k in ("enum", "optenum"):
+        E = ft.enum
+        arms = " ".join(f"{d:#x}u128 => Some({E.name}::{n})," for (n, d) in E.active) + " _ => None,"
+        m = f"(match ({bits}) {{ {arms} }})"
+        if k == "enum":
+            return f"{m}.unwrap()"
+        prim = f"u{storage_bits(ft.width)}"
+        return f"(match {m} {{ Some(e) => Ok(e), None => Err(({bits}) as {prim}) }})"
+    if k == "custom":
+        return f"{ft.inner_name}({H.uint_from_u128(ft.width, bits)})"
+    if k == "nested":
+        return f"{ft.inner_name}::new_with_raw_value({H.uint_from_u128(ft.width, bits)})"
+    raise ValueError(k)
+
+
+def h_c19(L):
+    S = L.name
+    b = H.raw_sym(L)
+    b.append(f"let x = {S}::new_with_raw_value(r);")
+    for f in L.fields:
+        b.append(f"let w_{f.name}: u128 = spec::get(r128, {H.rng(f.ranges)}, 0u32);")
+    # symbolic part: what the expansion hands to the DebugStruct builder
+    b.append("#[cfg(kani)]")
+    b.append("{")
+    b.append("    use core::fmt::Write;")
+    b.append("    crate::rt::dbgrec::reset();")
+    b.append('    let res = write!(crate::rt::dbgrec::NullSink, "{:?}", x);')
+    b.append('    assert!(res.is_ok(), "VERIF Debug::fmt returned an error");')
+    b.append(f'    assert!(crate::rt::dbgrec::struct_name_is("{S}"), "VERIF debug_struct not called exactly once with the struct name");')
+    b.append(f'    assert!(crate::rt::dbgrec::nfields() == {len(L.fields)}, "VERIF number of fields handed to the formatter != number of declared fields");')
+    b.append('    assert!(crate::rt::dbgrec::finish_calls() == 1, "VERIF finish() not called exactly once");')
+    for i, f in enumerate(L.fields):
+        b.append(f'    assert!(crate::rt::dbgrec::field_name_is({i}, "{f.name}"), "VERIF field #{i} is not named {f.name} (declaration order)");')
+        b.append(f"    let v_{f.name}: Option<{f.ty.getter_ty()}> = crate::rt::dbgrec::value::<{f.ty.getter_ty()}>({i});")
+        b.append(f'    assert!(v_{f.name}.is_some(), "VERIF value of field {f.name} does not have the getter\'s type");')
+        b.append(f"    let v_{f.name} = v_{f.name}.unwrap();")
+        for ln in H.getter_check(f.ty, f"v_{f.name}", f"w_{f.name}", f"VERIF Debug value of {f.name} != getter value"):
+            b.append("    " + ln)
+    b.append("}")
+    # native part: the real text against a #[derive(Debug)] reference with the same names
+    b.append("#[cfg(not(kani))]")
+    b.append("{")
+    b.append(f"    let want = vref::{S} {{ " + ", ".join(f"{f.name}: {ref_value_expr(f.ty, 'w_' + f.name)}" for f in L.fields) + " };")
+    b.append('    let (a1, b1) = (format!("{:?}", x), format!("{:?}", want));')
+    b.append('    assert!(a1 == b1, "VERIF {{:?}} text differs from the reference struct: {} vs {}", a1, b1);')
+    b.append('    let (a2, b2) = (format!("{:#?}", x), format!("{:#?}", want));')
+    b.append('    assert!(a2 == b2, "VERIF {{:#?}} text differs from the reference struct: {} vs {}", a2, b2);')
+    b.append("}")
+    b.append("vend!();")
+    return Harness("debug_fmt", "\n".join(b), "pass", "debug_fields", "C19", "", (f"<{S} as Debug>::fmt", "core::fmt::Formatter::debug_struct [stubbed]", "core::fmt::DebugStruct::field [stubbed]", "core::fmt::DebugStruct::finish [stubbed]") + tuple(f"{S}::{f.name}" for f in L.fields), stubs=DBG_STUBS)
+
+
+def c19_layouts(tier, seed):
+    rnd = random.Random(1919)
+    srnd = random.Random(seed * 7 + 19)
+    Ls = []
+
+    def mk(W, specs, tag):
+        """specs: list of (kind, lo, w)"""
+        aux, fields = [], []
+        for i, (kind, lo, w) in enumerate(specs):
+            name = ["alpha", "b", "c_long_name", "d", "e1", "f", "g", "h"][i]
+            if kind == "bool":
+                ty = T_bool()
+            elif kind == "uint":
+                ty = T_uint(w)
+            elif kind == "int":
+                ty = T_int(w)
+            elif kind == "enum":
+                e = full_enum(f"E{i}", w)
+                e.derives = "Debug"
+                aux.append(e)
+                ty = FType("enum", w, e)
+            elif kind == "optenum":
+                top = (1 << w) - 1
+                e = sparse_enum(f"E{i}", w, sorted(set([0, top // 2 + 1, top])), None)
+                e.derives = "Debug"
+                aux.append(e)
+                ty = FType("optenum", w, e)
+            elif kind == "custom":
+                aux.append("#[derive(Debug)]\n" + custom_decl(f"Cust{i}", w))
+                ty = FType("custom", w, None, f"Cust{i}")
+            else:
+                aux.append(nested_decl(f"Inner{i}", w).replace(f"#[bitfield(u{w})]", f"#[bitfield(u{w}, debug)]"))
+                ty = FType("nested", w, None, f"Inner{i}")
+            fields.append(Field(name, ty, [(lo, w)] if not isinstance(lo, list) else lo, None, "r" if i % 3 == 2 else "rw"))
+        return Layout(W, fields, debug=True, aux=aux, tag=tag)
+
+    Ls.append(mk(8, [("uint", 0, 4), ("uint", 4, 4)], "two nibbles on u8"))
+    Ls.append(mk(8, [("bool", 0, 1), ("uint", 1, 3), ("enum", 4, 2), ("optenum", 6, 2)], "bool,u3,enum,Option<enum> on u8"))
+    Ls.append(mk(16, [("bool", 0, 1), ("uint", 1, 3), ("int", 4, 8), ("enum", 12, 2), ("optenum", 13, 3)], "bool,u3,i8,enum,Option<enum> (overlapping) on u16"))
+    Ls.append(mk(16, [("uint", 8, 8), ("uint", 0, 8)], "two u8 (documented test shape) on u16"))
+    Ls.append(mk(32, [("int", 16, 16), ("custom", 3, 5), ("nested", 8, 6), ("bool", 31, 1), ("uint", 0, 32)], "i16, custom, nested, top bool, full-width u32 on u32"))
+    Ls.append(mk(32, [("uint", [(25, 7), (7, 5)], 12), ("optenum", 0, 8), ("uint", 20, 1)], "list field, native-storage Option<enum>, u1 on u32"))
+    Ls.append(mk(24, [("uint", 0, 9), ("int", 16, 8), ("bool", 23, 1)], "arbitrary base u24"))
+    Ls.append(mk(9, [("uint", 0, 9), ("bool", 8, 1), ("enum", 1, 1)], "arbitrary base u9 incl. 1-bit enum"))
+    if tier != "quick":
+        Ls.append(mk(64, [("uint", 0, 64), ("int", 0, 64), ("int", 32, 32), ("uint", 1, 63), ("bool", 63, 1)], "u64 wide fields"))
+        Ls.append(mk(128, [("uint", 0, 128), ("int", 0, 128), ("uint", 27, 100), ("bool", 127, 1)], "u128 wide fields"))
+        Ls.append(mk(65, [("uint", 0, 65), ("int", 1, 64), ("bool", 64, 1)], "arbitrary base u65"))
+        Ls.append(mk(8, [("bool", i, 1) for i in range(8)], "eight bools on u8"))
+        Ls.append(mk(32, [("uint", 4 * i, 4) for i in range(8)], "eight nibbles on u32"))
+        for k in range(14):
+            W = srnd.choice([8, 16, 32, 12, 24, 31])
+            n = srnd.randint(1, 6)
+            specs = []
+            for i in range(n):
+                kind = srnd.choice(["bool", "uint", "uint", "int", "enum", "optenum", "custom", "nested"])
+                if kind == "bool":
+                    w = 1
+                elif kind == "int":
+                    w = srnd.choice([x for x in (8, 16, 32) if x <= W] or [0])
+                    if w == 0:
+                        kind, w = "uint", srnd.randint(1, W)
+                elif kind == "enum":
+                    w = srnd.randint(1, 3)
+                elif kind == "optenum":
+                    w = srnd.randint(2, min(W, 9))
+                else:
+                    w = srnd.randint(1, W)
+                specs.append((kind, srnd.randint(0, W - w), w))
+            Ls.append(mk(W, specs, f"random debug layout on u{W}"))
+    return Ls
+
+
+def c19_ref_module(L):
+    out = ["pub mod vref {", "    use super::*;", "    #[derive(Debug)]", f"    pub struct {L.name} {{"]
+    for f in L.fields:
+        out.append(f"        pub {f.name}: {f.ty.getter_ty()},")
+    out += ["    }", "}"]
+    return "\n".join(out)
+
+
+def plan_c19(tier, seed):
+    Ls = c19_layouts(tier, seed)
+    us = []
+    native = []
+    rnd = random.Random(seed + 190)
+    for i, L in enumerate(Ls):
+        h = h_c19(L)
+        uid = f"d{i:05d}"
+        us.append(Unit(uid, L.decl() + "\n" + c19_ref_module(L), [h], {"layout": L, "sig": L.sig(), "tag": L.tag, "valid": True}))
+        nb = L.storage // 8
+        raws = [0, mask(L.base), int("a5" * 16, 16) & mask(L.base), int("5a" * 16, 16) & mask(L.base)] + [rnd.getrandbits(L.base) for _ in range(4 if tier == "quick" else 12)]
+        for rv in raws:
+            native.append((uid, "debug_fmt", [list(rv.to_bytes(nb, "little"))]))
+    # controls: the reference value of one field is taken from a shifted range (affects both the
+    # symbolic comparison and the native text comparison)
+    L0 = us[1].meta["layout"]
+    hc = h_c19(L0)
+    hc.name, hc.expect, hc.family = "ctl_debug", "control", "control"
+    f1 = L0.fields[1]
+    hc.body = hc.body.replace(f"let w_{f1.name}: u128 = spec::get(r128, {H.rng(f1.ranges)}, 0u32);", f"let w_{f1.name}: u128 = spec::get(r128, {H.rng([(f1.ranges[0][0] + 1, f1.ranges[0][1])])}, 0u32);", 1)
+    us[1].harnesses.append(hc)
+    L2 = us[0].meta["layout"]
+    hc2 = h_c19(L2)
+    hc2.name, hc2.expect, hc2.family = "ctl_debug_value", "control", "control"
+    hc2.body = hc2.body.replace(f"let w_{L2.fields[0].name}: u128 = spec::get(r128, {H.rng(L2.fields[0].ranges)}, 0u32);", f"let w_{L2.fields[0].name}: u128 = spec::get(r128, {H.rng([(L2.fields[0].ranges[0][0] + 1, L2.fields[0].ranges[0][1])])}, 0u32);", 1)
+    us[0].harnesses.append(hc2)
+    return Plan(us, title="debug option", stubbing=True, extra_rt=("dbgrec.rs",), chunk=40, harness_timeout=900, native_cases=native,
+                bounds={"inputs": "all raw values per layout (symbolic) for the sequence of calls made on the formatter; %d concrete raw values per layout for the real rendered text ({:?} and {:#?})" % (8 if tier == "quick" else 16),
+                        "layouts": "%d debug layouts with <= 8 readable scalar fields (bool, uN, native, signed, enum, Option<enum>, custom, nested, list-typed) on u8/u16/u32/u9/u24%s" % (len(us), "" if tier == "quick" else "/u64/u128/u65 + random shapes"),
+                        "stubs": "core::fmt::Formatter::debug_struct, DebugStruct::field, DebugStruct::finish replaced by recorders (struct name, field names in order, a byte copy of each value, finish count)"},
+                assumptions=COMMON_ASSUME + ["core's rendering of a DebugStruct (names, separators, pretty mode) is trusted; it is exercised for real in the native executions, which compare the text with a #[derive(Debug)] struct of the same shape",
+                                             "the recorded value bytes are reinterpreted as the declared getter type (size must match)"])
+
+
+PLANS.update({"C19": plan_c19})
